@@ -103,6 +103,13 @@ ServingViolations(s) ==
                  THEN LET i == CHOOSE j \in badProofs : TRUE IN
                       <<V("ProofFolds", [got |-> s.proofs[i], want |-> ExpSibs(atoms, s.proofs[i].r + 1, s.proofs[i].p)])>>
                  ELSE <<V("ProofFolds", [missing |-> wantPairs \ gotPairs, extra |-> gotPairs \ wantPairs])>>
+      \* a proof query during which one read failed answers with an error or with the right proof
+      badF == IF "fproofs" \notin DOMAIN s THEN {} ELSE
+              { i \in DOMAIN s.fproofs : LET q == s.fproofs[i] IN
+                  q.r < n /\ q.c # "err" /\ ~(q.c = "ok" /\ q.sib = ExpSibs(atoms, q.r + 1, q.p)) }
+      vF == IF badF = {} THEN <<>>
+            ELSE LET i == CHOOSE j \in badF : TRUE IN
+                 <<V("ProofUnderReadFault", [got |-> s.fproofs[i], want |-> ExpSibs(atoms, s.fproofs[i].r + 1, s.fproofs[i].p)])>>
       vTwin == IF "twin" \in DOMAIN s /\ s.twin.diff # <<>> THEN <<V("TwinAgrees", s.twin)>> ELSE <<>>
       \* tree walks asked with the hash of a root that only a reorged-out fork had (the node table is never cleaned)
       vDead == IF "deadroot" \in DOMAIN s /\ s.deadroot.methods # <<>>
@@ -111,7 +118,7 @@ ServingViolations(s) ==
                                                         THEN "F10" ELSE "none"])>>
                ELSE <<>>
       vAmb == IF "ambiguous" \in DOMAIN s THEN <<V("INFRA-AmbiguousNames", s.ambiguous)>> ELSE <<>>
-  IN vLast \o vRoots \o vBy \o vBridges \o vProofs \o vTwin \o vDead \o vAmb
+  IN vLast \o vRoots \o vBy \o vBridges \o vProofs \o vF \o vTwin \o vDead \o vAmb
 
 (* what a snapshot must look like while the store is halted: every data query refuses with the inconsistency error *)
 RefusingViolations(s) ==
@@ -241,7 +248,13 @@ L1ServingViolations(s) ==
                                                         THEN "F10" ELSE "none"])>>
                ELSE <<>>
       vAmb == IF "ambiguous" \in DOMAIN s THEN <<V("INFRA-AmbiguousNames", s.ambiguous)>> ELSE <<>>
-  IN vLast \o vInfos \o vGer \o vBlk \o vEnds \o vRoots \o vLastRoot \o vProofs \o vULast \o vVer \o vU \o vTwin \o vDead \o vAmb
+      badF == IF "fproofs" \notin DOMAIN s THEN {} ELSE
+              { i \in DOMAIN s.fproofs : LET q == s.fproofs[i] IN
+                  q.r < n /\ q.c # "err" /\ ~(q.c = "ok" /\ q.sib = ExpSibs(atoms, q.r + 1, q.p)) }
+      vF == IF badF = {} THEN <<>>
+            ELSE LET i == CHOOSE j \in badF : TRUE IN
+                 <<V("ProofUnderReadFault", [got |-> s.fproofs[i], want |-> ExpSibs(atoms, s.fproofs[i].r + 1, s.fproofs[i].p)])>>
+  IN vLast \o vInfos \o vGer \o vBlk \o vEnds \o vRoots \o vLastRoot \o vProofs \o vF \o vULast \o vVer \o vU \o vTwin \o vDead \o vAmb
 
 (* F5: the block contains an effective rollup-tree update that brings the tree back to a state it already had in the
    surviving history (its root hash is the primary key of the root table) *)
